@@ -226,6 +226,7 @@ class Session:
         self.planned_counter = 0
         self.disturbed = {}  # qid -> set of disturbance kinds since first planning
         self.history = []
+        self.ref_unavailable = 0
         self.nontrivial = set()
         self.failures = []
 
@@ -266,7 +267,11 @@ class Session:
         q = self._q(i)
         what = WHATS[w % len(WHATS)]
         qid = q["id"]
-        ref = reference(qid, (self.ctx.versions[0], self.ctx.versions[1]))[what]
+        try:
+            ref = reference(qid, (self.ctx.versions[0], self.ctx.versions[1]))[what]
+        except Exception:
+            self.ref_unavailable += 1  # (a fresh interpreter could not be started / timed out: no verdict for this step)
+            return
         try:
             coll = self._get(q)
             got = ("ok", observe(coll, what))
@@ -318,7 +323,11 @@ class Session:
             self.opt.pop(qid)  # a plan over files that were replaced since is the user's to drop
             return
         what = ["compute", "divisions", "len"][w % 3]
-        ref = reference(qid, versions)[what]
+        try:
+            ref = reference(qid, versions)[what]
+        except Exception:
+            self.ref_unavailable += 1
+            return
         try:
             got = ("ok", observe(coll, what))
             exc = None
